@@ -108,13 +108,14 @@ theorem git_config_wins (lfsconfig gitconfig : Source) (key : Bytes) (v : Bytes)
   rw [getLast?_filter_append _ _ _ hne]
   exact h
 
-/-- non-vacuity: a hostile .lfsconfig whose every key is dropped, next to one documented key that is kept -/
+/-- non-vacuity: a hostile .lfsconfig whose every key is dropped (the extension priority silently: it orders,
+    it is neither stored nor does it register anything), next to one documented key that is kept -/
 example : (readSource Gen.safeKeys {} ⟨[[108,102,115,46,117,114,108,61,104,116,116,112,58,47,47,97], [99,111,114,101,46,97,115,107,112,97,115,115,61,47,120], [108,102,115,46,101,120,116,101,110,115,105,111,110,46,101,46,99,108,101,97,110,61,47,120],
       [108,102,115,46,101,120,116,101,110,115,105,111,110,46,101,46,112,114,105,111,114,105,116,121,61,48], [114,101,109,111,116,101,46,97,46,98,46,112,117,115,104,117,114,108,61,104,116,116,112,58,47,47,101,118,105,108], [99,114,101,100,101,110,116,105,97,108,46,104,101,108,112,101,114,61,47,120], [102,111,111,46,98,97,114,46,97,99,99,101,115,115,61,98,97,115,105,99],
       [108,102,115,46,104,116,116,112,58,47,47,104,47,46,97,99,99,101,115,115,61,98,97,115,105,99], [114,101,109,111,116,101,46,111,46,108,102,115,117,114,108,61,104,116,116,112,58,47,47,98]], true⟩) =
     { vals := [([108,102,115,46,117,114,108], [104,116,116,112,58,47,47,97]), ([108,102,115,46,104,116,116,112,58,47,47,104,47,46,97,99,99,101,115,115], [98,97,115,105,99]), ([114,101,109,111,116,101,46,111,46,108,102,115,117,114,108], [104,116,116,112,58,47,47,98])],
       exts := [], remotes := [[111]],
-      ignored := [[99,111,114,101,46,97,115,107,112,97,115,115], [108,102,115,46,101,120,116,101,110,115,105,111,110,46,101,46,99,108,101,97,110], [108,102,115,46,101,120,116,101,110,115,105,111,110,46,101,46,112,114,105,111,114,105,116,121], [114,101,109,111,116,101,46,97,46,98,46,112,117,115,104,117,114,108],
+      ignored := [[99,111,114,101,46,97,115,107,112,97,115,115], [108,102,115,46,101,120,116,101,110,115,105,111,110,46,101,46,99,108,101,97,110], [114,101,109,111,116,101,46,97,46,98,46,112,117,115,104,117,114,108],
                   [99,114,101,100,101,110,116,105,97,108,46,104,101,108,112,101,114], [102,111,111,46,98,97,114,46,97,99,99,101,115,115]] } := by decide
 
 /-! ### the consumer side: which keys tq.configureCustomAdapters turns into a program to run -/
@@ -200,13 +201,14 @@ theorem gen_keys_let_through :
       := by decide
 
 set_option maxRecDepth 100000 in
-/-- and a key is reported as ignored in exactly these places: extension keys of a safe-only source, `remote`
+/-- and a key is reported as ignored in exactly these places: extension keys of a safe-only source other than a
+    priority (which orders the extensions Git's own configuration defines and is not stored), `remote`
     keys other than remote.<name>.lfsurl, and whatever is not let through and not on the allow-list -/
 theorem gen_keys_ignored :
     Gen.ignoredAssignments =
       [
-       -- append(ignored, key) | len(parts) == 4 && parts[0] == "lfs" && parts[1] == "extension" && gc.OnlySafeKeys
-       [97, 112, 112, 101, 110, 100, 40, 105, 103, 110, 111, 114, 101, 100, 44, 32, 107, 101, 121, 41, 32, 124, 32, 108, 101, 110, 40, 112, 97, 114, 116, 115, 41, 32, 61, 61, 32, 52, 32, 38, 38, 32, 112, 97, 114, 116, 115, 91, 48, 93, 32, 61, 61, 32, 34, 108, 102, 115, 34, 32, 38, 38, 32, 112, 97, 114, 116, 115, 91, 49, 93, 32, 61, 61, 32, 34, 101, 120, 116, 101, 110, 115, 105, 111, 110, 34, 32, 38, 38, 32, 103, 99, 46, 79, 110, 108, 121, 83, 97, 102, 101, 75, 101, 121, 115],
+       -- append(ignored, key) | len(parts) == 4 && parts[0] == "lfs" && parts[1] == "extension" && gc.OnlySafeKeys && prop != "priority"
+       [97, 112, 112, 101, 110, 100, 40, 105, 103, 110, 111, 114, 101, 100, 44, 32, 107, 101, 121, 41, 32, 124, 32, 108, 101, 110, 40, 112, 97, 114, 116, 115, 41, 32, 61, 61, 32, 52, 32, 38, 38, 32, 112, 97, 114, 116, 115, 91, 48, 93, 32, 61, 61, 32, 34, 108, 102, 115, 34, 32, 38, 38, 32, 112, 97, 114, 116, 115, 91, 49, 93, 32, 61, 61, 32, 34, 101, 120, 116, 101, 110, 115, 105, 111, 110, 34, 32, 38, 38, 32, 103, 99, 46, 79, 110, 108, 121, 83, 97, 102, 101, 75, 101, 121, 115, 32, 38, 38, 32, 112, 114, 111, 112, 32, 33, 61, 32, 34, 112, 114, 105, 111, 114, 105, 116, 121, 34],
        -- append(ignored, key) | len(parts) == 4 && parts[0] == "lfs" && parts[1] == "extension" && case "clean" && gc.OnlySafeKeys
        [97, 112, 112, 101, 110, 100, 40, 105, 103, 110, 111, 114, 101, 100, 44, 32, 107, 101, 121, 41, 32, 124, 32, 108, 101, 110, 40, 112, 97, 114, 116, 115, 41, 32, 61, 61, 32, 52, 32, 38, 38, 32, 112, 97, 114, 116, 115, 91, 48, 93, 32, 61, 61, 32, 34, 108, 102, 115, 34, 32, 38, 38, 32, 112, 97, 114, 116, 115, 91, 49, 93, 32, 61, 61, 32, 34, 101, 120, 116, 101, 110, 115, 105, 111, 110, 34, 32, 38, 38, 32, 99, 97, 115, 101, 32, 34, 99, 108, 101, 97, 110, 34, 32, 38, 38, 32, 103, 99, 46, 79, 110, 108, 121, 83, 97, 102, 101, 75, 101, 121, 115],
        -- append(ignored, key) | len(parts) == 4 && parts[0] == "lfs" && parts[1] == "extension" && case "smudge" && gc.OnlySafeKeys
@@ -215,6 +217,23 @@ theorem gen_keys_ignored :
        [97, 112, 112, 101, 110, 100, 40, 105, 103, 110, 111, 114, 101, 100, 44, 32, 107, 101, 121, 41, 32, 124, 32, 33, 40, 108, 101, 110, 40, 112, 97, 114, 116, 115, 41, 32, 61, 61, 32, 52, 32, 38, 38, 32, 112, 97, 114, 116, 115, 91, 48, 93, 32, 61, 61, 32, 34, 108, 102, 115, 34, 32, 38, 38, 32, 112, 97, 114, 116, 115, 91, 49, 93, 32, 61, 61, 32, 34, 101, 120, 116, 101, 110, 115, 105, 111, 110, 34, 41, 32, 38, 38, 32, 108, 101, 110, 40, 112, 97, 114, 116, 115, 41, 32, 62, 32, 49, 32, 38, 38, 32, 112, 97, 114, 116, 115, 91, 48, 93, 32, 61, 61, 32, 34, 114, 101, 109, 111, 116, 101, 34, 32, 38, 38, 32, 103, 99, 46, 79, 110, 108, 121, 83, 97, 102, 101, 75, 101, 121, 115, 32, 38, 38, 32, 40, 108, 101, 110, 40, 112, 97, 114, 116, 115, 41, 32, 60, 32, 51, 32, 124, 124, 32, 112, 97, 114, 116, 115, 91, 108, 101, 110, 40, 112, 97, 114, 116, 115, 41, 45, 49, 93, 32, 33, 61, 32, 34, 108, 102, 115, 117, 114, 108, 34, 41],
        -- append(ignored, key) | !allowed && keyIsUnsafe(key)
        [97, 112, 112, 101, 110, 100, 40, 105, 103, 110, 111, 114, 101, 100, 44, 32, 107, 101, 121, 41, 32, 124, 32, 33, 97, 108, 108, 111, 119, 101, 100, 32, 38, 38, 32, 107, 101, 121, 73, 115, 85, 110, 115, 97, 102, 101, 40, 107, 101, 121, 41]
+      ]
+      := by decide
+
+set_option maxRecDepth 100000 in
+/-- an extension is DEFINED only by a source that is not safe-only; a priority read from .lfsconfig goes into the
+    table entry of that name, and the names no trusted source defined are deleted from the table at the end:
+    `.lfsconfig` orders extensions, it never registers one (Cfg.decide: `.skip` for the priority, `.ignore` for
+    every other extension key of a safe-only source) -/
+theorem gen_extension_definitions :
+    Gen.extensionDefinitions =
+      [
+       -- true | len(parts) == 4 && parts[0] == "lfs" && parts[1] == "extension" && !gc.OnlySafeKeys
+       [116, 114, 117, 101, 32, 124, 32, 108, 101, 110, 40, 112, 97, 114, 116, 115, 41, 32, 61, 61, 32, 52, 32, 38, 38, 32, 112, 97, 114, 116, 115, 91, 48, 93, 32, 61, 61, 32, 34, 108, 102, 115, 34, 32, 38, 38, 32, 112, 97, 114, 116, 115, 91, 49, 93, 32, 61, 61, 32, 34, 101, 120, 116, 101, 110, 115, 105, 111, 110, 34, 32, 38, 38, 32, 33, 103, 99, 46, 79, 110, 108, 121, 83, 97, 102, 101, 75, 101, 121, 115],
+       -- ext | len(parts) == 4 && parts[0] == "lfs" && parts[1] == "extension"
+       [101, 120, 116, 32, 124, 32, 108, 101, 110, 40, 112, 97, 114, 116, 115, 41, 32, 61, 61, 32, 52, 32, 38, 38, 32, 112, 97, 114, 116, 115, 91, 48, 93, 32, 61, 61, 32, 34, 108, 102, 115, 34, 32, 38, 38, 32, 112, 97, 114, 116, 115, 91, 49, 93, 32, 61, 61, 32, 34, 101, 120, 116, 101, 110, 115, 105, 111, 110, 34],
+       -- extensions, name | !definedByGit[name]
+       [101, 120, 116, 101, 110, 115, 105, 111, 110, 115, 44, 32, 110, 97, 109, 101, 32, 124, 32, 33, 100, 101, 102, 105, 110, 101, 100, 66, 121, 71, 105, 116, 91, 110, 97, 109, 101, 93]
       ]
       := by decide
 
